@@ -1793,7 +1793,7 @@ SPECS = [
     RuleSpec("C07.R7", rule_r7, 3, "A8", "one chart per difficulty, from its own packages and the header tempo"),
     RuleSpec("C07.R8", rule_r8, 8, "A7", "times come from the measure table; integration steps 4 * d(measure) / bpm; header tempo first"),
     RuleSpec("C07.R9", rule_r9, 1, "A5", "events are sorted by their own position before the tempo sweep"),
-    RuleSpec("C07.R10", rule_r10, 4, "A8", "tempo sweep = merge of two sorted sequences: look-ahead on the element consumed next, bounds, first element, trailing events"),
+    RuleSpec("C07.R10", rule_r10, 4, "A8", "tempo sweep = merge of two sorted sequences: note positions sorted, look-ahead on the element consumed next, bounds, first element, trailing events continue the same running state"),
     RuleSpec("C07.R11", rule_r11, 2, "A9", "no cut of a fixed-width text field at an untested find() result (-1 when the field is full)"),
     RuleSpec("C07.D", rule_dep, 1, "M0", "rules of the shared code (timing engine, list classes, stacker) that the operations of this property reach"),
 ]
